@@ -117,6 +117,11 @@ def apply(state, op, depth=0):
         if cur is None:
             return state, ('exc', 'KeyError')
         return _rm(state, k), OK_NONE
+    if name == 'remove_if_tag':
+        # one row's share of a bulk removal (evict(tag), expire()): the row goes if it still matches at this instant
+        if cur is not None and (op.get('tag') is None or _t(cur) == fp(vals.dec(op['tag']))):
+            return _rm(state, k), OK_NONE
+        return state, OK_NONE
     if name == 'setdefault':
         if cur is None:
             v = _val(op)
